@@ -178,6 +178,37 @@ def dead_table_tail(plan):
     plan["body"].append({"s": "guarded", "cond": c, "body": body, "try": True})
 
 
+def local_block_tail(plan):
+    """One run in eight ends with a guarded region whose function keeps block variables of its own (a local
+    BranchingValues object with one _if block): the body of the block may raise, which leaves the block open; the region
+    restores the guard, the abandoned object is collected afterwards (draws from a generator of its own)."""
+    if plan["cfg"].get("max_nesting", 0) < 1:
+        return
+    r2 = _random.Random("local-block/%s" % P.plan_digest(plan))
+    if r2.random() > 0.125:
+        return
+    n_i = sum(1 for i in plan["inputs"] if i["t"] == "I")
+    n_b = sum(1 for i in plan["inputs"] if i["t"] == "B")
+    plan["inputs"].append({"kind": "priv", "t": "I", "v": r2.choice([7, 7, 2, 0, -3])})
+    plan["inputs"].append({"kind": "priv", "t": "B", "v": r2.choice([1, 1, 0])})
+    plan["inputs"].append({"kind": "priv", "t": "B", "v": r2.choice([1, 1, 1, 0])})
+    x, c1, c2 = {"ref": n_i, "t": "I"}, {"ref": n_b, "t": "B"}, {"ref": n_b + 1, "t": "B"}
+    body = []
+    if r2.random() < 0.7:
+        body.append({"s": "assert", "kind": "lt", "args": [x, {"k": 5, "t": "I"}]})
+    if r2.random() < 0.4:
+        body.append({"s": "let", "e": {"op": "*", "a": x, "b": x, "t": "I"}, "try": r2.random() < 0.5})
+    blk = {"s": "local_block", "cond": c2, "value": {"op": "+", "a": x, "b": {"k": 1, "t": "I"}, "t": "I"},
+           "body": body, "bug": r2.random() < 0.3, "explicit": r2.random() < 0.3}
+    inner = [blk]
+    if r2.random() < 0.3:
+        inner = [{"s": "guarded", "cond": c2, "body": inner, "try": r2.random() < 0.5}]
+    if r2.random() < 0.4:
+        inner.append({"s": "let", "e": {"op": "+", "a": x, "b": x, "t": "I"}})
+    plan["body"].append({"s": "guarded", "cond": c1, "body": inner, "try": True})
+    plan["body"].append({"s": "assert", "kind": "eq", "args": [{"ref": 0, "t": "I"}, {"ref": 0, "t": "I"}], "try": True})
+
+
 def boundary_region_tail(plan):
     """One run in eight ends with a region guarded by a secret condition (usually true) in which operands at the
     edges of the signed bitlength range meet in comparisons, shifts and bit operations: the Python-level self check of
@@ -328,7 +359,9 @@ class C08(TraceCheck):
                 case["faults"] = {"abort_deepcopy": 1 + int(rng.random() ** 1.5 * 40)}
                 case["target"] = None
             return case
-        return TraceCheck.gen(self, rng, i, tier)
+        case = TraceCheck.gen(self, rng, i, tier)
+        local_block_tail(case["plan"])
+        return case
 
     def run(self, case):
         if not case.get("block"):
